@@ -2,15 +2,17 @@
 (* Anti-vacuity run for Route: every named window must be reachable (see proc/ListenerWin). *)
 EXTENDS Route
 
-ASSUME TLCSet(101, FALSE) /\ TLCSet(102, FALSE) /\ TLCSet(103, FALSE) /\ TLCSet(104, FALSE)
+ASSUME TLCSet(101, FALSE) /\ TLCSet(102, FALSE) /\ TLCSet(103, FALSE) /\ TLCSet(104, FALSE) /\ TLCSet(105, FALSE) /\ TLCSet(106, FALSE)
 
 RecordWindows ==
   /\ W_OverlapForeign => TLCSet(101, TRUE)
   /\ W_OverlapSame => TLCSet(102, TRUE)
   /\ W_WriteDuringRead => TLCSet(103, TRUE)
   /\ W_RejectDuringRouting => TLCSet(104, TRUE)
+  /\ W_UpdateDuringRouting => TLCSet(105, TRUE)
+  /\ W_RouteAfterUpdate => TLCSet(106, TRUE)
 
 AllWindowsReached ==
-  IF TLCGet(101) /\ TLCGet(102) /\ TLCGet(103) /\ TLCGet(104) THEN TRUE
-  ELSE Print(<<"@@UNREACHED", TLCGet(101), TLCGet(102), TLCGet(103), TLCGet(104)>>, FALSE)
+  IF TLCGet(101) /\ TLCGet(102) /\ TLCGet(103) /\ TLCGet(104) /\ TLCGet(105) /\ TLCGet(106) THEN TRUE
+  ELSE Print(<<"@@UNREACHED", TLCGet(101), TLCGet(102), TLCGet(103), TLCGet(104), TLCGet(105), TLCGet(106)>>, FALSE)
 =============================================================================
